@@ -32,6 +32,7 @@ func Run(cfg hx.Config) error {
 	runRuby(r, rnd.Fork(), cfg)
 	runJava(r, rnd.Fork(), cfg)
 	runGobin(r, rnd.Fork(), cfg)
+	runGobinReal(r, rnd.Fork(), cfg)
 	runJar(r, rnd.Fork(), cfg)
 	runJarOdd(r, rnd.Fork(), cfg)
 	if err := runRhelRepo(r, rnd.Fork(), cfg); err != nil {
